@@ -140,7 +140,7 @@ def with_variants(hist, rnd, p_reopen=0.15, p_rebuild=0.08, n_events=0, p_cont=0
     return out
 
 
-def random_history(u, rnd, length, p=None, p_alt=0.0):
+def random_history(u, rnd, length, p=None, p_alt=0.0, p_starved=0.0):
     """seeded random history over universe dict u (p_alt: share of resubmissions of a stored event with another signature)"""
     n = u["n"]
     ops = []
@@ -148,6 +148,9 @@ def random_history(u, rnd, length, p=None, p_alt=0.0):
         r = rnd.random()
         if p_alt and rnd.random() < p_alt:
             ops.append({"k": "salt", "a": rnd.randint(1, n)})
+            continue
+        if p_starved and rnd.random() < p_starved:
+            ops.append({"k": "sstore", "a": rnd.randint(1, n)})
             continue
         if r < 0.70:
             ops.append({"k": "store", "a": rnd.randint(1, n)})
